@@ -24,8 +24,9 @@ Modelled region of `resolve_ref` (everything else answers `Res.unmodelled`; the 
 string) and the set of regular files of the input directory are fields of `Env`; references `#`, `#/pointer`,
 `#anchor`, `file`, `file#…` with a plain relative `file` (no `.`/`..`/empty segments) and URLs. For a URL that is
 not the root id while the root id is a URL too, `urlparse` is modelled for URLs over letters, digits and
-`. - _ ~ : /` with a plain path; the file-system probe `target_path.exists()` is modelled when target and root id
-lie in the same URL directory (then it is `name ∈ files`), other directories are outside the model.
+`. - _ ~ : /` with a plain path; the file-system probe `target_path.exists()` is answered from `Env.files` when the
+target lies in or below the URL directory of the root id; a target elsewhere is probed at a path that leaves the input
+directory through `..` — ASSUMPTION of the model (and of the harness): nothing exists there, the URL is returned.
 -/
 namespace Dcg.Model.IdRegistry
 open Dcg.Model.Resolver
@@ -131,14 +132,28 @@ def parseUrl (u : Str) : Option Url :=
     if rest.all urlChar then
       let netloc := rest.takeWhile (· != '/')
       match rest.dropWhile (· != '/') with
-      | '/' :: p =>
-        if plainRel p then
+      | '/' :: p0 =>
+        let p := if p0.getLast? = some '/' then p0.dropLast else p0     -- `Path("/a/b/")` is `/a/b`
+        if p = [] then some { scheme := scheme, netloc := netloc, dir := [], name := [] }   -- `Path("/")`
+        else if plainRel p then
           some { scheme := scheme, netloc := netloc, dir := beforeLastSlash p, name := afterLastSlash p }
         else none
       | _ => none
     else none
   if startsWith "https://".toList u then go "https".toList (u.drop 8)
   else if startsWith "http://".toList u then go "http".toList (u.drop 7)
+  else none
+
+/-- `Path(base_path, p).exists()`: a regular file of the input directory or a directory above one -/
+def existsIn (files : List Str) (p : Str) : Bool :=
+  files.contains p || files.any (fun f => (p ++ ['/']).isPrefixOf f)
+
+/-- `get_relative_path(Path(root dir), Path(target dir))` when the target directory is the root-id directory or lies
+below it (`some []` / `some rest`); `none` = the relative path begins with `..` (it leaves the input directory) -/
+def below (rootDir targetDir : Str) : Option Str :=
+  if targetDir = rootDir then some []
+  else if rootDir = [] then some targetDir
+  else if (rootDir ++ ['/']).isPrefixOf targetDir then some (targetDir.drop (rootDir.length + 1))
   else none
 
 /-! ### `resolve_ref` -/
@@ -180,9 +195,13 @@ def urlStep (e : Env) (ref : Str) : Res :=
             match parseUrl fp, parseUrl rid with
             | some t, some r =>
               if t.scheme = r.scheme ∧ t.netloc = r.netloc then
-                if t.dir = r.dir then
-                  (if e.files.contains t.name then .ok (t.name ++ ['#'] ++ pp) else .ok ref)
-                else .unmodelled
+                match below r.dir t.dir with
+                | some rel =>
+                  let cand := (if rel = [] then [] else rel ++ ['/']) ++ t.name
+                  -- an empty `cand` is the input directory itself: it exists, and `str(Path())` is `.`
+                  (if cand = [] then .ok ('.' :: '#' :: pp)
+                   else if existsIn e.files cand then .ok (cand ++ ['#'] ++ pp) else .ok ref)
+                | none => .ok ref       -- assumption: nothing outside the input directory is met by `..`
               else .ok ref
             | _, _ => .unmodelled
           else if rid.contains ':' then .unmodelled   -- `urlparse` may find a scheme
